@@ -277,8 +277,10 @@ def check_property(prop, tier, verbose=False):
     ev = dict(property_id=prop, tier=tier, seed=seed, level=level, coverage=cov,
               assumptions=[ASSUMPTIONS[a] for a in meta.get('assumptions', ['A2', 'A3', 'A5'])] + meta.get('extra_assumptions', []),
               wall_s=round(wall, 2), violations=len(violations), exit_code=exit_code)
-    os.makedirs(os.path.join(ROOT, 'evidence'), exist_ok=True)
-    with open(os.path.join(ROOT, 'evidence', prop + '.json'), 'w') as f:
+    # (developer runs against a scratch copy of the repository -- PYVC_REPO -- must not overwrite the evidence of /repo itself)
+    evdir = os.environ.get('PYVC_EVIDENCE_DIR') or (os.path.join(ROOT, 'evidence') if os.environ.get('PYVC_REPO', '/repo') == '/repo' else '/tmp/pyvc_evidence_scratch')
+    os.makedirs(evdir, exist_ok=True)
+    with open(os.path.join(evdir, prop + '.json'), 'w') as f:
         json.dump(ev, f, indent=1, default=str)
     print(f'{prop}: obligations={n_obl} discharged={n_dis} known={len(seen_kf)} violations={len(violations)} '
           f'undecided={len(undecided)} not-claimed={len(not_claimed)} errors={len(errors)} wall={wall:.1f}s exit={exit_code}')
